@@ -33,7 +33,7 @@ type c17Scenario struct {
 	Out        string            `json:"out"`        // as given on the command line ({S} = sandbox)
 	Modules    []c17Module       `json:"modules"`    // in some walk order, root first
 	Plugins    []c17Plugin       `json:"plugins"`
-	Probe      string            `json:"probe"` // "" main stream; "D42" / "D33": known-finding probes
+	Probe      string            `json:"probe"` // "" main stream; "D33": known-finding probe
 }
 
 type c17Module struct {
@@ -222,15 +222,16 @@ var dotdotShapes = []string{"../x.go", "a/../../x.go", "..", "a/..", "a..b/x.go"
 
 func cleanRel(p string) string { return filepath.Join("/", p) }
 
-// usable: the cleaned target is a plain file position that clashes with nothing (the D42 /
-// D33 shapes are excluded from the main stream by construction).
+// usable: the cleaned target is not the output directory itself and not in a file-vs-directory
+// clash with another output (the D33 shapes are excluded from the main stream by construction;
+// equal cleaned paths are allowed: since the D42 fix they are a reported conflict).
 func usable(p string, taken map[string]bool) bool {
 	c := cleanRel(p)
 	if c == "/" {
 		return false
 	}
 	for t := range taken {
-		if t == c || strings.HasPrefix(t, c+"/") || strings.HasPrefix(c, t+"/") {
+		if strings.HasPrefix(t, c+"/") || strings.HasPrefix(c, t+"/") {
 			return false
 		}
 	}
@@ -384,9 +385,7 @@ func c17Generate(r *rng.R, n int) []c17Scenario {
 	return out
 }
 
-var d32Once, d33Once, d34Once sync.Once
-
-func after0(d string) bool { return d[0] == '+' || d[0] == '~' }
+var d33Once sync.Once
 
 func c17Check(c *checker, scs []c17Scenario, how string) {
 	type rr struct {
@@ -440,55 +439,6 @@ func c17Check(c *checker, scs []c17Scenario, how string) {
 		outRel, _ := filepath.Rel(sandbox, filepath.Clean(outAbs))
 
 		switch s.Probe {
-		case "D42":
-			// two sources, same file after cleaning: the model lists both entries; the
-			// implementation silently keeps one of them
-			if res.exit == 0 && strings.HasPrefix(model, "ok ") {
-				dupPath, cands := duplicateTarget(model)
-				got := ""
-				for _, w := range res.written {
-					if strings.HasPrefix(w, dupPath+"=") {
-						got = w
-					}
-				}
-				ok := false
-				for _, cnd := range cands {
-					if cnd == got {
-						ok = true
-					}
-				}
-				if dupPath != "" && ok {
-					d32Once.Do(func() {
-						c.rep.Known = append(c.rep.Known, report.Known{ID: "D42", What: "two sources wrote the same file (paths equal only after filepath.Join cleaning): no conflict reported, exit 0, one content silently wins (" + s.Label + ")"})
-					})
-					continue
-				}
-			}
-			if res.exit != 0 {
-				c.rep.Notes = appendOnce(c.rep.Notes, "D42 probe now fails with an error: the finding appears repaired ("+firstLine(res.stderr)+")")
-				continue
-			}
-			c.rep.Disagree(report.Disagreement{Kind: "C17 D42 probe: unexpected behaviour", Input: input, Impl: impl, Model: model})
-			continue
-		case "D34":
-			escaped := ""
-			for _, d := range res.diff {
-				if !within(outRel, d[1:]) && after0(d) {
-					escaped = d
-				}
-			}
-			if res.exit == 0 && impl == model && escaped != "" {
-				d34Once.Do(func() {
-					c.rep.Known = append(c.rep.Known, report.Known{ID: "D34", What: "a Thrift file whose base name is \"..\" + \".thrift\", directly in the (inferred) thrift root, is generated OUTSIDE the output directory (TrimSuffix leaves the path element \"..\"): " + escaped + " with output directory " + outRel})
-				})
-				continue
-			}
-			if escaped == "" && impl == model {
-				c.rep.Notes = appendOnce(c.rep.Notes, "D34 probe no longer writes outside the output directory: the finding appears repaired")
-				continue
-			}
-			c.rep.Disagree(report.Disagreement{Kind: "C17 D34 probe: unexpected behaviour", Input: input, Impl: impl, Model: model, Oracle: strings.Join(res.diff, " ")})
-			continue
 		case "D33":
 			if res.exit != 0 && len(res.diff) > 0 && strings.HasPrefix(model, "ok ") {
 				confined := true
@@ -538,14 +488,15 @@ func c17Check(c *checker, scs []c17Scenario, how string) {
 				continue
 			}
 			for _, f := range p.Files {
-				if seen[f.K] {
+				k := filepath.Join("/", f.K) // the form in which it is written below the output directory
+				if seen[k] {
 					conflict = true
 				}
-				seen[f.K] = true
+				seen[k] = true
 			}
 		}
 		if conflict && res.exit == 0 {
-			c.oracle("C17 conflict not reported", input, impl, "two plugins returned the same path")
+			c.oracle("C17 conflict not reported", input, impl, "two plugin paths name the same file")
 		}
 		anyFail := false
 		for _, m := range s.Modules {
@@ -585,22 +536,6 @@ func shapeOf(p string) string {
 	return "relative"
 }
 
-// duplicateTarget finds a path that occurs twice in a model answer and its candidate entries.
-func duplicateTarget(model string) (string, []string) {
-	f := strings.Fields(model)
-	count := map[string][]string{}
-	for _, e := range f[2:] {
-		k := strings.SplitN(e, "=", 2)[0]
-		count[k] = append(count[k], e)
-	}
-	for k, v := range count {
-		if len(v) > 1 {
-			return k, v
-		}
-	}
-	return "", nil
-}
-
 func c17Probes() []c17Scenario {
 	base := func(label, probe string, plugins ...c17Plugin) c17Scenario {
 		files, mods := program([]string{"proj"}, []string{"main"}, nil, true)
@@ -608,10 +543,11 @@ func c17Probes() []c17Scenario {
 		return c17Scenario{Label: label, Probe: probe, Cwd: "work", Files: files, Main: mods[0].Path, Out: "{S}/out", Modules: mods, Plugins: plugins}
 	}
 	return []c17Scenario{
-		base("plugin ./main/main.go vs core main/main.go", "D42", c17Plugin{Name: "alpha", Files: []kv2{{"./main/main.go", "PLUGIN"}}}),
-		base("plugins x.go and ./x.go", "D42", c17Plugin{Name: "alpha", Files: []kv2{{"x.go", "AAA"}}}, c17Plugin{Name: "beta", Files: []kv2{{"./x.go", "BBB"}}}),
-		base("plugins a/b.go and /a//b.go", "D42", c17Plugin{Name: "alpha", Files: []kv2{{"a/b.go", "AAA"}}}, c17Plugin{Name: "beta", Files: []kv2{{"/a//b.go", "BBB"}}}),
-		{Label: "thrift file named ...thrift directly in the inferred root", Probe: "D34", Cwd: "work", Main: "proj/...thrift", Out: "{S}/o/out",
+		base("regression D42: plugin ./main/main.go vs core main/main.go", "", c17Plugin{Name: "alpha", Files: []kv2{{"./main/main.go", "PLUGIN"}}}),
+		base("regression D42: plugins x.go and ./x.go", "", c17Plugin{Name: "alpha", Files: []kv2{{"x.go", "AAA"}}}, c17Plugin{Name: "beta", Files: []kv2{{"./x.go", "BBB"}}}),
+		base("regression D42: plugins a/b.go and /a//b.go", "", c17Plugin{Name: "alpha", Files: []kv2{{"a/b.go", "AAA"}}}, c17Plugin{Name: "beta", Files: []kv2{{"/a//b.go", "BBB"}}}),
+		base("regression D42: one plugin returning x.go and ./x.go", "", c17Plugin{Name: "alpha", Files: []kv2{{"x.go", "AAA"}, {"./x.go", "BBB"}}}),
+		{Label: "regression D34: thrift file named ...thrift directly in the inferred root", Probe: "", Cwd: "work", Main: "proj/...thrift", Out: "{S}/o/out",
 			Files:   map[string]string{"proj/...thrift": "struct S { 1: optional string a }\n", "sibling/keep.txt": "keep"},
 			Modules: []c17Module{{Path: "proj/...thrift"}}},
 		base("plugin path \".\"", "D33", c17Plugin{Name: "alpha", Files: []kv2{{".", "X"}}}),
@@ -674,7 +610,7 @@ func c17Paths(c *checker, r *rng.R) {
 		c.expect("C17 filepath.Rel vs rel", "PR "+hxs(a)+" "+hxs(b), relAns)
 		// the generated-file position as generateModule computes it
 		pm := "err"
-		if pkg, err := filepath.Rel(a, strings.TrimSuffix(b, ".thrift")); err == nil {
+		if pkg, err := filepath.Rel(a, strings.TrimSuffix(b, ".thrift")); err == nil && pkg != ".." && !strings.HasPrefix(pkg, "../") {
 			pm = "ok " + hxs(filepath.Join(pkg, filepath.Base(pkg)+".go"))
 		}
 		c.expect("C17 generateModule path vs modulePath", "PM "+hxs(a)+" "+hxs(b), pm)
@@ -707,5 +643,5 @@ func runC17(c *checker, r *rng.R) {
 	c17Paths(c, r)
 	c.flush()
 	c.rep.Rule = "scenarios = the real thriftrw binary in a sandbox tree (sources, output directory with pre-existing files, a sibling directory) hashed before/after: 1..5 modules in 5 directory layouts with the k-th module failing to generate x {no --thrift-root, proj, grandparent, main's own dir, uncleaned, relative} x 5 out-dir spellings x 0..3 plugins returning paths from {relative, absolute, .., ., repeated separators, trailing slash, equal to a core path, equal to another plugin's path} or failing; compared with the Lean plan (exit status + exact set of files written with contents); + 12k random POSIX path pairs through Clean/Join/Rel/Dir/Base/IsAbs/generated-file path vs path/filepath. non-trivial = has plugins, several modules or an explicit root; distinct by scenario"
-	c.rep.Notes = append(c.rep.Notes, "main-stream plugin paths never clean to the output directory itself nor collide (after cleaning) with another output: those shapes are findings D42/D33 and have their own probes")
+	c.rep.Notes = append(c.rep.Notes, "main-stream plugin paths never clean to the output directory itself nor clash file-vs-directory with another output: those shapes are finding D33 and have their own probe; D42 and D34 are fixed, their witnesses run as ordinary scenarios")
 }
